@@ -24,7 +24,7 @@ pub const DRIVERS: [&str; 9] = ["decode_blocks(All)", "decode_blocks(UptoBlocks(
 fn archetypes(tier: Tier) -> Vec<(String, Block, bool)> {
     let mut v: Vec<(String, Block, bool)> = vec![];
     let all_rle = |n: usize, ml: u32| Block::Compressed { lits: Lits::Raw(vec![], 0), count_form: if n < 128 { 1 } else if n < 0x7F00 { 2 } else { 3 }, modes: [Mode::Rle(0), Mode::Rle(0), Mode::Rle(zmodel::tables::code_of(&zmodel::tables::ML_BASE, ml).unwrap().0)], seqs: vec![Seq { ll: 0, ml, of: 1 }; n], pick: 0 };
-    let ns: Vec<usize> = tier.pick(vec![1, 2, 10, 1000, 33000], vec![1, 2, 3, 10, 100, 127, 128, 1000, 32511, 32512, 33000, 65000]);
+    let ns: Vec<usize> = tier.pick(vec![1, 2, 3, 10, 127, 128, 1000, 32511, 32512, 33000], vec![1, 2, 3, 10, 100, 127, 128, 1000, 32511, 32512, 33000, 65000]);
     for n in ns {
         v.push((format!("{n} sequences of match length 131074 (all-RLE modes)"), all_rle(n, 131074), false));
     }
